@@ -72,6 +72,14 @@ def near_pairs(draw, max_nm, maxabs=90.0):
 
 
 TIMES = st.one_of(
-    st.sampled_from([(0, 1), (1, 0), (5, 5), (1000.0, 1000.5), (1000.5, 1000.0), (0, 9.99), (9, 0)]),
+    st.sampled_from([(0, 1), (1, 0), (5, 5), (1000.0, 1000.5), (1000.5, 1000.0), (0, 9.99), (9, 0), (10.25, 10.75), (10.75, 10.25), (7.000001, 7.0)]),
     st.tuples(gen.uint(0, 10 ** 6), gen.uint(0, 10 ** 6)),
 )
+
+
+def as_time(t, use_datetime):
+    """The decoders document int or datetime time stamps: optionally turn seconds into a datetime."""
+    if not use_datetime:
+        return t
+    import datetime
+    return datetime.datetime(2024, 5, 17, 12, 0, 0) + datetime.timedelta(seconds=t)
